@@ -63,6 +63,11 @@ def fn(ps, *xs, self=""):
     return {"t": "fn", "self": self, "ps": list(ps), "xs": list(xs)}
 
 
+def mfn(ars, self=""):
+    """a fn of several arities: ars = [(fixed params, rest param or "", body forms)]"""
+    return {"t": "mfn", "self": self, "ars": [{"ps": list(ps), "rest": rest, "xs": list(xs)} for ps, rest, xs in ars]}
+
+
 def call(f, *args):
     return {"t": "call", "f": f, "args": list(args)}
 
@@ -153,10 +158,22 @@ def pr(e):
     if t == "fn":
         return "(fn %s[%s]%s)" % (e["self"] + " " if e["self"] else "", " ".join(e["ps"]),
                                   "".join(" " + pr(x) for x in e["xs"]))
+    if t == "mfn":
+        ars = ["[%s%s]%s" % (" ".join(a["ps"]), ((" " if a["ps"] else "") + "& " + a["rest"]) if a["rest"] else "",
+                             "".join(" " + pr(x) for x in a["xs"])) for a in e["ars"]]
+        if len(ars) == 1 and e.get("bare", True):
+            return "(fn %s%s)" % (e["self"] + " " if e["self"] else "", ars[0])
+        return "(fn %s%s)" % (e["self"] + " " if e["self"] else "", " ".join("(%s)" % a for a in ars))
     if t == "call":
         return "(%s%s)" % (pr(e["f"]), "".join(" " + pr(x) for x in e["args"]))
     if t == "vec":
         return "[%s]" % " ".join(pr(x) for x in e["xs"])
+    if t == "letfn" and e.get("star"):
+        # the special form itself (what the letfn macro expands to), with fn* values
+        return "(letfn* [%s]%s)" % (" ".join("%s (fn* %s [%s]%s)" % (f["n"], f["n"], " ".join(f["ps"]),
+                                                                    "".join(" " + pr(x) for x in f["xs"]))
+                                             for f in e["fs"]),
+                                    "".join(" " + pr(x) for x in e["xs"]))
     if t == "letfn":
         return "(letfn [%s]%s)" % (" ".join("(%s [%s]%s)" % (f["n"], " ".join(f["ps"]),
                                                             "".join(" " + pr(x) for x in f["xs"]))
@@ -196,8 +213,8 @@ def annotate(e):
         _munge = munge
     if isinstance(e, dict):
         out = {k: annotate(v) for k, v in e.items()}
-        if e.get("t") == "fn" or ("ps" in e and "n" in e and "t" not in e):
-            ms = [_munge(p) for p in e["ps"]]
+        if e.get("t") == "fn" or ("ps" in e and "n" in e and "t" not in e) or ("ps" in e and "rest" in e):
+            ms = [_munge(p) for p in e["ps"] + ([e["rest"]] if e.get("rest") else [])]
             out["mdup"] = len(set(ms)) < len(ms)
             out["mps"] = ms
         return out
@@ -228,10 +245,15 @@ def contexts(p):
         "fnarg": call(fn(["q"], l("q")), p),
         "trybody": try_([p], [("Exception", "e", [m(96), c(K("caught"))])], [m(98)]),
         "loopinit": loop([("w", p)], l("w")),
+        # statement position inside a function / a let body (a top-level `do` is split into units, so "stmt"
+        # above is in fact a top-level form)
+        "fnstmt": call(fn([], p, m(89))),
+        "letstmt": let([("z", c(I(1)))], p, l("z")),
+        "ifstmt": call(fn([], if_(m(88, c(B(True))), do(p, c(I(3))), c(I(4))))),
     }
 
 
-CTX_QUICK = ["top", "fnbody", "stmt", "arg", "letinit", "iftest"]
+CTX_QUICK = ["top", "fnbody", "stmt", "arg", "letinit", "iftest", "fnstmt", "letstmt"]
 
 # ---- generator -------------------------------------------------------------------------------------
 LOCALS = ["x", "y", "a-b", "a_b", "x?", "x__Q__", "class", "print", "n*", "G"]
@@ -292,6 +314,8 @@ class Gen:
             return self.def_(d, scope)
         if w < 0.965:
             return self.letfn_(ty, d, scope)
+        if w < 0.972 and ty == "any":
+            return self.arity_(d, scope)
         if w < 0.98 and ty == "any":
             return self.capture_(d, scope)
         if w < 0.992 and ty == "any":
@@ -502,8 +526,78 @@ class Gen:
         self.gl.append(n)
         return do(def_(n, e), g(n))
 
+    def arity_(self, d, scope):
+        """a fn of several arities (at most one variadic, whose fixed parameter count is not below any fixed
+        arity's) called with 0 .. max+2 marked arguments: which arity runs, what its parameters and its rest
+        parameter see, arity errors before any body code, recur inside an arity, self calls across arities"""
+        r = self.r
+        fixed = sorted(r.sample([0, 1, 2, 3], r.choice([0, 1, 1, 2, 2, 3])))
+        variadic = r.random() < 0.7 or not fixed
+        lo = max(fixed) if fixed else 0
+        nv = r.randint(lo, max(lo, 3)) if variadic else None
+        if r.random() < 0.4 and variadic and fixed and nv == lo:
+            nv = lo + 1                       # the variadic arity has more fixed parameters than every fixed arity
+        names = r.sample(["x", "y", "a-b", "x?", "class", "print", "n*", "G", "k"], 5)   # no two munge alike
+        self_name = r.choice(["", "", "self", "f-n"])
+        sc = [(a, t) for a, t in scope if a not in names and a != self_name]
+        ars = []
+        tag = 0
+        for k in fixed + ([nv] if variadic else []):
+            tag += 1
+            isvar = variadic and len(ars) == len(fixed)
+            ps = names[:k]
+            rest = names[4] if isvar else ""
+            seen = [l(p) for p in ps] + ([l(rest)] if isvar else [])
+            result = vec(c(K("ar%d" % tag)), *seen)
+            w = r.random()
+            body = [m(self.marker())] if r.random() < 0.6 else []
+            if w < 0.25 and k >= 1:
+                # recur inside this arity: the first parameter counts up; the rest parameter is handed on or dropped
+                last = [r.choice([l(rest), c(NIL)])] if isvar else []
+                body.append(if_(prim("lt", l(ps[0]), c(I(r.randint(1, 3)))),
+                                recur(prim("inc", l(ps[0])), *[l(p) for p in ps[1:]], *last), result))
+            elif w < 0.4 and self_name:
+                # a self call into whatever arity takes one more argument, only from the outermost activation
+                # (terminates: a fixed arity calls one with more parameters, the variadic one only while its rest is nil)
+                body.append(if_(prim("not", l(rest)) if isvar else c(B(True)),
+                                call(l(self_name), *[l(p) for p in ps], c(I(9))), result))
+            elif w < 0.55:
+                body.append(vec(result, self.expr("any", max(0, d - 2), sc + [(p, "any") for p in ps])))
+            else:
+                body.append(result)
+            ars.append((ps, rest, body))
+        f = mfn(ars, self=self_name)
+        if len(ars) == 1 and r.random() < 0.5:
+            f["bare"] = False
+        top = (nv if variadic else lo) + 2
+        argc = r.randint(0, top)
+        args = [m(self.marker(), c(I(10 + i))) if r.random() < 0.7 else c(I(10 + i)) for i in range(argc)]
+        w = r.random()
+        if w < 0.6:
+            return call(f, *args)
+        h = r.choice([x for x in LOCALS if x not in names])
+        if w < 0.8:
+            return let([(h, f)], call(l(h), *args))
+        # two calls of the same function value with different argument counts
+        return let([(h, f)], vec(call(l(h), *args), try_([call(l(h), *args[: max(0, argc - 1)])],
+                                                         [("Exception", "e", [c(K("arity"))])], [])))
+
     def letfn_(self, ty, d, scope):
         r = self.r
+        if r.random() < 0.4:
+            # a letfn whose LAST body form is what matters (an effect, a throw, a def) -- in statement position
+            # its value is unused but the form must still run
+            f1 = r.choice(["ev?", "h", "a-b"])
+            sc = [(x, t) for x, t in scope if x != f1]
+            last = r.choice([call(l(f1), c(I(r.randint(0, 2)))), m(self.marker()), throw(r.choice(EXC)),
+                             self.expr(ty, max(0, d - 2), sc)])
+            pre = [m(self.marker())] if r.random() < 0.4 else []
+            fbody = r.choice([[m(self.marker(), l("k"))], [throw(r.choice(EXC))], [prim("inc", c(K("k")))],
+                              [m(self.marker()), if_(prim("lt", l("k"), c(I(1))), throw(r.choice(EXC)), l("k"))]])
+            out = letfn([(f1, ["k"], fbody)], *pre, last)
+            if r.random() < 0.5:
+                out["star"] = True
+            return out
         # mutually recursive pair counting down
         f1, f2 = "ev?", "od?"
         sc = [(x, t) for x, t in scope if x not in (f1, f2, "k")]
@@ -520,6 +614,22 @@ def capture_programs(rnd, n):
     for _ in range(n):
         gobj = Gen(rnd)
         out.append(gobj.capture_(3, []))
+    return out
+
+
+def arity_programs(rnd, n):
+    out = []
+    for _ in range(n):
+        gobj = Gen(rnd)
+        out.append(gobj.arity_(3, []))
+    return out
+
+
+def letfn_programs(rnd, n):
+    out = []
+    for _ in range(n):
+        gobj = Gen(rnd)
+        out.append(gobj.letfn_("any", 3, []))
     return out
 
 
